@@ -137,13 +137,31 @@ public:
 	{
 	}
 
+	// The queued events are not copied, the new queue starts empty: every member is initialized
+	// as in the default constructor (the counters would be indeterminate otherwise).
 	EventQueueBase(const EventQueueBase & other)
-		: super(other)
+		:
+			super(other),
+			queueListConditionVariable(),
+			queueEmptyCounter(0),
+			queueNotifyCounter(0),
+			queueListMutex(),
+			queueList(),
+			freeListMutex(),
+			freeList()
 	{
 	}
 
 	EventQueueBase(EventQueueBase && other) noexcept
-		: super(std::move(other))
+		:
+			super(std::move(other)),
+			queueListConditionVariable(),
+			queueEmptyCounter(0),
+			queueNotifyCounter(0),
+			queueListMutex(),
+			queueList(),
+			freeListMutex(),
+			freeList()
 	{
 	}
 
